@@ -80,6 +80,11 @@ def arbitrary_set(rng: random.Random, max_routines: int = 4, max_ops: int = 6) -
             else:
                 tg = rng.choice(["i:0", "i:3", "i:12", "c:ACTOR_PLAYER", "c:OBJ_X"])
                 infos.append({"kind": kind, "target": tg, "coro": ""})
+    if not coro and nr >= 2 and rng.random() < 0.25:
+        # mixed kinds: some coroutines among other routines (the coroutine table then is NOT aligned with routine indices)
+        for r in range(nr):
+            if rng.random() < 0.5:
+                infos[r] = {"kind": "COROUTINE", "target": "i:0", "coro": f"CORO_{r}"}
     if not allops:
         return arbitrary_set(rng, max_routines, max_ops)
     for o in allops:
